@@ -35,6 +35,10 @@ type File struct {
 	// there may be many `FileDescriptor`s operating on this `File`.
 	nodeLock sync.RWMutex
 
+	// Serializes the read-modify-write cycles of SetMode and SetModTime so
+	// that concurrent metadata updates do not overwrite each other.
+	metaLock sync.Mutex
+
 	RawLeaves bool
 }
 
@@ -214,6 +218,9 @@ func (fi *File) Mode() (os.FileMode, error) {
 }
 
 func (fi *File) SetMode(mode os.FileMode) error {
+	fi.metaLock.Lock()
+	defer fi.metaLock.Unlock()
+
 	nd, err := fi.GetNode()
 	if err != nil {
 		return err
@@ -253,6 +260,9 @@ func (fi *File) ModTime() (time.Time, error) {
 
 // SetModTime sets the files' last modification time.
 func (fi *File) SetModTime(ts time.Time) error {
+	fi.metaLock.Lock()
+	defer fi.metaLock.Unlock()
+
 	nd, err := fi.GetNode()
 	if err != nil {
 		return err
